@@ -1,6 +1,8 @@
 package main
 
 import (
+	"log/slog"
+	"fmt"
 	"bytes"
 	"reflect"
 	"runtime"
@@ -79,14 +81,23 @@ func setNextIndex(q *circularQueue.CircularQueue, v int) bool {
 	return true
 }
 
+// qmsg: a message with every field set (a queue of messages holds messages, not just their numbers)
 func qmsg(id int) handler.Message {
-	return handler.Message{MessageType: id, RawData: []byte{byte(id >> 24), byte(id >> 16), byte(id >> 8), byte(id)}}
+	lv := []slog.Level{slog.LevelDebug, slog.LevelInfo, slog.LevelWarn}[id%3]
+	return handler.Message{MessageType: id, RawData: []byte{byte(id >> 24), byte(id >> 16), byte(id >> 8), byte(id)},
+		Timestamp: uint(id)*7 + 1, SentAt: fmt.Sprint("Time ", id), StartOfWeek: fmt.Sprint("Start of week ", id),
+		ErrorMessage: []string{"", "e"}[id%2], LogLevel: lv, Readable: fmt.Sprint("readable ", id)}
 }
 
+// ids: the numbers of the messages of a snapshot; a message that is not exactly the one that was added under
+// that number counts as a different message (its number negated, which no addition ever had)
 func ids(ms []handler.Message) []int {
 	r := make([]int, len(ms))
 	for i, m := range ms {
 		r[i] = m.MessageType
+		if !reflect.DeepEqual(m, qmsg(m.MessageType)) {
+			r[i] = -m.MessageType - 1000000000
+		}
 	}
 	return r
 }
